@@ -282,11 +282,19 @@ class PCE500KeyboardHandler:
         """Restore the keyboard handler from ``snapshot_state`` output."""
 
         matrix_state = state.get("matrix")
+        if not isinstance(matrix_state, dict) and "key_states" in state:
+            # Bundles written by the Rust core store the matrix state as the
+            # keyboard entry itself (no handler wrapper around it).
+            matrix_state = state
         if isinstance(matrix_state, dict):
             self._matrix.load_state(matrix_state)
 
-        self._last_kol = int(state.get("last_kol", self._last_kol)) & 0xFF
-        self._last_koh = int(state.get("last_koh", self._last_koh)) & 0xFF
+        self._last_kol = (
+            int(state.get("last_kol", state.get("kol", self._last_kol))) & 0xFF
+        )
+        self._last_koh = (
+            int(state.get("last_koh", state.get("koh", self._last_koh))) & 0xFF
+        )
         self._last_kil = int(state.get("last_kil", self._last_kil)) & 0xFF
         self._scan_enabled = bool(state.get("scan_enabled", self._scan_enabled))
         self._matrix.scan_enabled = self._scan_enabled
